@@ -1,65 +1,65 @@
-// REPLAY for property C19, harness k_arm_raw_header (unit K-arms, engine kani)
+// REPLAY for property C16, harness k_dispatch (unit K-dispatch, engine kani)
 // Failed obligations:
-//   OBL:arms.empty_stored_block_is_done [C03 C12 C19]  at miniz_oxide/src/inflate/core.rs:3498:17 in function inflate::core::verif_inflate_core::k_arm_raw_header
+//   OBL:dispatch.adler_over_consumed_prefix [C09 C16]  at miniz_oxide/src/deflate/core.rs:3192:13 in function deflate::core::verif_deflate_core::k_dispatch
 // no-failing-input-found: the verifier reported the failed obligation without a concrete model.
 // Verifier output (tail):
-//   Check 378: memcmp.pointer_dereference.5
-//   	 - Status: SUCCESS
-//   	 - Description: "dereference failure: pointer outside object bounds"
-//   	 - Location: <builtin-library-memcmp>:27 in function memcmp
-//   
-//   Check 379: memcmp.pointer_dereference.6
-//   	 - Status: SUCCESS
-//   	 - Description: "dereference failure: invalid integer address"
-//   	 - Location: <builtin-library-memcmp>:27 in function memcmp
-//   
-//   Check 380: memcmp.pointer_dereference.7
-//   	 - Status: SUCCESS
-//   	 - Description: "dereference failure: pointer NULL"
-//   	 - Location: <builtin-library-memcmp>:27 in function memcmp
-//   
-//   Check 381: memcmp.pointer_dereference.8
-//   	 - Status: SUCCESS
-//   	 - Description: "dereference failure: pointer invalid"
-//   	 - Location: <builtin-library-memcmp>:27 in function memcmp
-//   
-//   Check 382: memcmp.pointer_dereference.9
-//   	 - Status: SUCCESS
-//   	 - Description: "dereference failure: deallocated dynamic object"
-//   	 - Location: <builtin-library-memcmp>:27 in function memcmp
-//   
-//   Check 383: memcmp.pointer_dereference.10
+//   Check 1353: memcmp.pointer_dereference.4
 //   	 - Status: SUCCESS
 //   	 - Description: "dereference failure: dead object"
 //   	 - Location: <builtin-library-memcmp>:27 in function memcmp
 //   
-//   Check 384: memcmp.pointer_dereference.11
+//   Check 1354: memcmp.pointer_dereference.5
 //   	 - Status: SUCCESS
 //   	 - Description: "dereference failure: pointer outside object bounds"
 //   	 - Location: <builtin-library-memcmp>:27 in function memcmp
 //   
-//   Check 385: memcmp.pointer_dereference.12
+//   Check 1355: memcmp.pointer_dereference.6
 //   	 - Status: SUCCESS
 //   	 - Description: "dereference failure: invalid integer address"
 //   	 - Location: <builtin-library-memcmp>:27 in function memcmp
 //   
-//   Check 386: inflate::core::read_bits::<{closure@miniz_oxide/src/inflate/core.rs:2477:67: 2477:76}>.unwind.0
+//   Check 1356: memcmp.pointer_dereference.7
 //   	 - Status: SUCCESS
-//   	 - Description: "unwinding assertion loop 0"
-//   	 - Location: miniz_oxide/src/inflate/core.rs:768:5 in function inflate::core::read_bits::<{closure@miniz_oxide/src/inflate/core.rs:2477:67: 2477:76}>
+//   	 - Description: "dereference failure: pointer NULL"
+//   	 - Location: <builtin-library-memcmp>:27 in function memcmp
+//   
+//   Check 1357: memcmp.pointer_dereference.8
+//   	 - Status: SUCCESS
+//   	 - Description: "dereference failure: pointer invalid"
+//   	 - Location: <builtin-library-memcmp>:27 in function memcmp
+//   
+//   Check 1358: memcmp.pointer_dereference.9
+//   	 - Status: SUCCESS
+//   	 - Description: "dereference failure: deallocated dynamic object"
+//   	 - Location: <builtin-library-memcmp>:27 in function memcmp
+//   
+//   Check 1359: memcmp.pointer_dereference.10
+//   	 - Status: SUCCESS
+//   	 - Description: "dereference failure: dead object"
+//   	 - Location: <builtin-library-memcmp>:27 in function memcmp
+//   
+//   Check 1360: memcmp.pointer_dereference.11
+//   	 - Status: SUCCESS
+//   	 - Description: "dereference failure: pointer outside object bounds"
+//   	 - Location: <builtin-library-memcmp>:27 in function memcmp
+//   
+//   Check 1361: memcmp.pointer_dereference.12
+//   	 - Status: SUCCESS
+//   	 - Description: "dereference failure: invalid integer address"
+//   	 - Location: <builtin-library-memcmp>:27 in function memcmp
 //   
 //   
 //   SUMMARY:
-//    ** 1 of 384 failed (5 unreachable)
+//    ** 1 of 1354 failed (8 unreachable)
 //   
-//    ** 2 of 2 cover properties satisfied
+//    ** 7 of 7 cover properties satisfied
 //   
-//   Failed Checks: "OBL:arms.empty_stored_block_is_done [C03 C12 C19]"
-//    File: "miniz_oxide/src/inflate/core.rs", line 3498, in inflate::core::verif_inflate_core::k_arm_raw_header
+//   Failed Checks: "OBL:dispatch.adler_over_consumed_prefix [C09 C16]"
+//    File: "miniz_oxide/src/deflate/core.rs", line 3192, in deflate::core::verif_deflate_core::k_dispatch
 //   
 //   VERIFICATION:- FAILED
-//   Verification Time: 15.008619s
+//   Verification Time: 74.44266s
 //   
 //   Manual Harness Summary:
-//   Verification failed for - inflate::core::verif_inflate_core::k_arm_raw_header
+//   Verification failed for - deflate::core::verif_deflate_core::k_dispatch
 //   Complete - 0 successfully verified harnesses, 1 failures, 1 total.
